@@ -453,7 +453,7 @@ func suiteC08Calls(cfg Config, res *Result) {
 		{"p.GetB", pst.GetB()}, {"st.Sum(1, 2, i)", st.Sum(1, 2, 5)}, {"st.Sum()", st.Sum()}, {"f0()", goFuncs[0].(func() string)()}, {"f0", goFuncs[0].(func() string)()},
 		{"f1(4)", goFuncs[1].(func(int) int)(4)}, {`f2("a", 3)`, goFuncs[2].(func(string, int) string)("a", 3)}, {"f3(1, 2, 3)", goFuncs[3].(func(...int) int)(1, 2, 3)},
 		{"f3()", goFuncs[3].(func(...int) int)()}, {`f4("p", "x", "y")`, goFuncs[4].(func(string, ...string) string)("p", "x", "y")}, {"f8(i)", 6}, {`f10("q")`, "q@"},
-		{"f11(li)|length", 2}, {"f19(li)", 2}, {"f1(i * 2)", 20}, {"f1(7 / 2)", 6}, {"f1(7 % 4)", 6}, {"f3(i * 1, 2 * 2)", 9}, {"st.Sum(i % 3, 2 * 3)", 8}, {"f8(i - 1)", 5}, {"f20(m)", 1}, {"f21(st)", st.A}, {`f22(1, "z")`, "z"}, {"f17(fl)", 3.0}, {"f18(t)", false},
+		{"f11(li)|length", 2}, {"f19(li)", 2}, {`f25("a", "b")`, "v:a,b"}, {"f25()", "v:"}, {`f25(s)`, "v:str"}, {`f26("n", 1, 2, i)`, "n8"}, {`f26("n")`, "n0"}, {`f26("n", i)`, "n5"}, {"f1(i * 2)", 20}, {"f1(7 / 2)", 6}, {"f1(7 % 4)", 6}, {"f3(i * 1, 2 * 2)", 9}, {"st.Sum(i % 3, 2 * 3)", 8}, {"f8(i - 1)", 5}, {"f20(m)", 1}, {"f21(st)", st.A}, {`f22(1, "z")`, "z"}, {"f17(fl)", 3.0}, {"f18(t)", false},
 	}
 	wantDirect := map[string]string{}
 	for _, d := range direct {
